@@ -294,6 +294,15 @@ def mapContents : List (Scalar × Pre) → List Pre
   | [] => []
   | (k, p) :: rest => lit (encScalar k) :: lit HashLits.mapEq :: p :: lit HashLits.mapSep :: mapContents rest
 
+/-- `bytes_repr_mapping_contents` since fix e8ebe74c: the items are ordered by the byte representation of their keys
+    (`sorted(..., key=lambda item: item[0])` on `b"".join(bytes_repr(key))`), a total order on byte strings; before, by
+    `sorted(mapping)`, i.e. Python's `<` on the keys themselves (`sortedKeysByValue` below). -/
+def sortItems {β : Type} (items : List (Scalar × β)) : List (Scalar × β) :=
+  pySortedB (fun a b => bytesLt (encScalar a.1) (encScalar b.1)) items
+
+/-- OLD key order (before fix e8ebe74c), kept as documentation of defect D68 only -/
+def sortedKeysByValue (ks : List Scalar) : Except Err (List Scalar) := pySorted scalarLt ks
+
 def seqName : SeqKind → Bytes
   | .list => ascii "list"
   | .tuple => ascii "tuple"
@@ -365,12 +374,10 @@ def pre : PyVal → Except Err Pre
     pure (.node id [lit (setName fr ++ HashLits.setOpen), .sorted ps, lit HashLits.setClose])
   | .dict id items => do
     let ps ← preItems items
-    let sorted ← pySorted (fun a b => scalarLt a.1 b.1) ps
-    pure (.node id (lit HashLits.dictOpen :: mapContents sorted ++ [lit HashLits.dictClose]))
+    pure (.node id (lit HashLits.dictOpen :: mapContents (sortItems ps) ++ [lit HashLits.dictClose]))
   | .obj id cls fields => do
     let ps ← preItems fields
-    let sorted ← pySorted (fun a b => scalarLt a.1 b.1) ps
-    pure (.node id (lit (cls ++ HashLits.objOpen) :: mapContents sorted ++ [lit HashLits.objClose]))
+    pure (.node id (lit (cls ++ HashLits.objOpen) :: mapContents (sortItems ps) ++ [lit HashLits.objClose]))
   | .tyFields id fields outputs => do
     let fs ← preList fields
     let os ← preList outputs
